@@ -385,13 +385,21 @@ def twin_oracle(ctx, cases, iouts):
                 diff = {x: (a.get(x), b.get(x)) for x in set(a) | set(b) if a.get(x) != b.get(x)}
                 if c.get("twin_kind") == "memdir":
                     # (here d is the case with the memory store over the directory, c the re-opened directory store)
+                    sigm = "C10:memdir-dir-%s" % st["kind"]
+                    if st["kind"] == "mget" and a.get("status") == 404 and b.get("status") == 200 and deleted_child_of_live_index(c, im, k, st.get("repo"), st.get("arg")):
+                        # the re-opened directory store re-read index.json meanwhile (a collection does): finding F52, seen from the memory twin
+                        sigm = "C10:reopen-mget-deleted-child-of-live-index"
                     ctx.violation("memory store over the directory and re-opened directory store answer %s %s/%s differently: %s" % (st["kind"], st.get("repo"), st.get("arg", ""), str(diff)[:300]),
-                                  dict(case=replayable(dict(d, steps=d["steps"][:k + 1])), memdir=str(a)[:800], dir=str(b)[:800]), "C10:memdir-dir-%s" % st["kind"])
+                                  dict(case=replayable(dict(d, steps=d["steps"][:k + 1])), memdir=str(a)[:800], dir=str(b)[:800]), sigm)
                     break
                 sig = "C10:mem-dir-%s" % st["kind"]
                 if st["kind"] == "mget" and a.get("status") == 200 and b.get("status") == 404 and deleted_child_of_live_index(d, idr, k, st.get("repo"), st.get("arg")):
                     # the directory store re-read index.json meanwhile (a collection does): finding F52, seen from the memory twin
                     sig = "C10:reopen-mget-deleted-child-of-live-index"
+                if st["kind"] == "mget" and a.get("status") == 404 and b.get("status") == 200 and parents_deleted(d, idr, k, st.get("repo"), st.get("arg")):
+                    # ... and the mirror image, finding F35: the child of a deleted index is only in the in-memory child list, which
+                    # the directory store rebuilt when it re-read index.json
+                    sig = "C10:reopen-mget-child-of-deleted-index"
                 ctx.violation("directory and memory store answer %s %s/%s differently: %s" % (st["kind"], st.get("repo"), st.get("arg", ""), str(diff)[:300]),
                               dict(case=replayable(dict(d, steps=d["steps"][:k + 1])), dir=str(a)[:800], mem=str(b)[:800]), sig)
                 break
